@@ -119,6 +119,7 @@ type runner struct {
 	prefix   string
 	panics   []string
 	diag     []string
+	adj      []int64 // adjusted part durations (ticks of the leading track) reported during the current Write
 	served   map[string]bool
 	segSize  map[string]int // listed segment uri -> bytes (C16 bandwidth)
 }
@@ -232,7 +233,7 @@ func RunScript(w *trace.W, idx int, sc Script, opts Options) error {
 		}
 		g := gcd(90000, int64(k.rate()))
 		tl = append(tl, trace.M{"k": k.kind(), "rate": k.rate(), "codec": cfg.Tracks[i].Codec, "off": off,
-			"tsnum": 90000 / g, "tsden": int64(k.rate()) / g,
+			"tsnum": 90000 / g, "tsden": int64(k.rate()) / g, "sd": k.unitDur(1),
 			"def": b2i(cfg.Tracks[i].Def), "named": b2i(cfg.Tracks[i].Name != "")})
 	}
 	reset["tracks"] = tl
@@ -252,7 +253,15 @@ func RunScript(w *trace.W, idx int, sc Script, opts Options) error {
 	}
 
 	r.s = sched.New()
-	gohlslib.VerifSetHook(nil)
+	// the only hook point of interest here reports the adjusted part duration chosen by the segmenter (ns)
+	gohlslib.VerifSetHook(func(name string, args ...int64) {
+		if name == "seg.adjusted" && len(args) == 1 {
+			rate := int64(r.kits[r.lead].rate())
+			ms := args[0] / 1000000
+			r.adj = append(r.adj, (ms*rate+999)/1000)
+		}
+	})
+	defer gohlslib.VerifSetHook(nil)
 	defer func() {
 		r.m.Close()
 		r.s.Quiesce(500 * time.Millisecond)
@@ -327,8 +336,9 @@ func (r *runner) write(st Step) (trace.M, bool) {
 			"size": k.payloadSize(au, r.cfg.Variant), "ntp": ntpms})
 		dts += k.unitDur(dc)
 	}
+	r.adj = []int64{}
 	err := k.write(r.m, r.tracks[t], ntp, st.DTS, aus)
-	ev := trace.M{"ev": "write", "t": t + 1, "u": ul, "ok": b2i(err == nil)}
+	ev := trace.M{"ev": "write", "t": t + 1, "u": ul, "ok": b2i(err == nil), "adj": r.adj}
 	if err != nil {
 		ev["err"] = err.Error()
 	}
@@ -444,7 +454,7 @@ func (r *runner) abstractPL(stream int, pl *m3u8.Media) trace.M {
 		out["pt"] = int64(math.Round(pl.PartTarget * 1000))
 	}
 	if pl.HasHoldBack {
-		out["hb"] = int64(math.Round(pl.HoldBack * 1000))
+		out["hb"] = int64(math.Round(pl.HoldBack * 100000)) // units of 10 us (the text has 5 decimals): exact
 	}
 	if pl.HasSkipUntil {
 		out["su"] = int64(math.Round(pl.SkipUntil * 1000))
